@@ -649,7 +649,15 @@ func (s *Stream) applyWindowAnalytic(row map[string]any) bool {
 // Returns:
 //   - map[string]any: processed result data, returns nil if doesn't match filter condition
 //   - error: processing error, returns error for aggregation queries
-func (s *Stream) ProcessSync(data map[string]any) (map[string]any, error) {
+func (s *Stream) ProcessSync(data map[string]any) (result map[string]any, err error) {
+	// A row that panics (a user function, a custom table source) is contained like on the Emit
+	// path: the caller gets an error instead of the panic, and later rows are processed normally.
+	defer func() {
+		if r := recover(); r != nil {
+			s.log.Error("process panic recovered: %v", r)
+			result, err = nil, fmt.Errorf("row processing panicked: %v", r)
+		}
+	}()
 	// 同步单事件返回仅适用于直连路径：窗口聚合与 CEP 模式匹配都跨多事件，无法单事件返回。
 	// 窗口判定沿用 NeedWindow（兼容直接构造 config 的用例），CEP 判定用 Mode。
 	if s.config.NeedWindow {
